@@ -252,8 +252,6 @@ def replay_open(f):
 def run(ctx, args):
     ctx.regen(["GenWs.v", "GenNames.v", "GenReduce.v"])
     ctx.build("Props/C07.vo")
-    if ctx.tier == "thorough":
-        ctx.coqchk("Delb.Props.C07")
     if args.replay:
         with open(args.replay) as f:
             rep = json.load(f)
